@@ -14,7 +14,7 @@ LEVEL_TEXT = ('Lean 4 theorems at ℂ/ℝ, stated over the C02 propagation model
               'the integer frequency coordinate; for any number of fields on the wavefront canvas, any output extent / mask box / '
               'propagation shape and any set of output samples inside one period (α = 1/K, 1/L, K, L ≥ canvas, K ≠ L allowed) the summed '
               'intensity is ≤ Σ|total input field|², with equality over the whole period; nested sample sets are monotone; intensity ≥ 0; a '
-              'tilted field, or several fields sharing one tilt, keep their energy over the displaced period; fftshift∘fft2(ortho)∘ifftshift equals the centred unitary dft2 for '
+              'tilted field, several fields sharing one tilt, or fields with different tilts (against the power of the coherently summed ramped inputs) keep their energy over a covered period; fftshift∘fft2(ortho)∘ifftshift equals the centred unitary dft2 for '
               'even and odd sizes, and — composed with C09 fft_eq_propagate_dft — the whole FFT propagator (grid shape, padding or scratch, crop; any number of '
               'fields, isotropic sampling) returns at most the input power and exactly it on the full grid; normalize_power (factor regenerated from util.py) '
               'yields power p at every input scale, and a pupil images to its amplitude·mask power (through C07 Plane.multiply). The propagate_dft correspondence runs the C02 model itself (Gen.dftWindow, Gen.maskShape/Shift, dftAlpha) '
@@ -23,28 +23,26 @@ LEVEL_NOTE = ('Trusted, stated plainly: the fft2 contract `fft2ortho` is written
               'cancelling the centring) and proved equal to the textbook (1/√(mn)) Σ x[a,b] e^{−2πi(ak/m+bl/n)}; that NumPy\'s '
               'fft2(norm="ortho") computes that sum, and that fftshift/ifftshift are the stated index maps, is assumed and only observed '
               'differentially. Wavefront.intensity = |Wavefront.field|² and reduce keeping the total are C07/C06 theorems, cited not '
-              'restated; differently tilted overlapping fields are not covered by an energy theorem (their Σ|field|² is not the input '
-              'power). np.dot/np.exp as in C01; floating-point rounding is not modelled.')
+              'restated; for differently tilted fields the reference power is that of the coherent sum of the ramped inputs (multi_tilt_period_energy). np.dot/np.exp as in C01; floating-point rounding is not modelled.')
 TECHNIQUE = 'Lean 4 proof (roots-of-unity orthogonality, Finset sums) over a generic executable model + differential correspondence'
-GEN = ['FourierWiring', 'Window', 'Extent', 'NormalizePower', 'FieldMerge', 'FieldDispatch', 'FieldAccum']
+GEN = ['FourierWiring', 'Window', 'Extent', 'NormalizePower', 'FftScratch', 'FieldDispatch', 'FieldIdx', 'FieldMerge', 'Helper', 'Helper20', 'Hex', 'Mesh', 'PlaneHandover', 'PlanePhase', 'PlanePx', 'PlaneType', 'PropagateMeta', 'TiltFit', 'Util', 'FieldAccum']
 OPS = ['C01', 'C05', 'C02', 'C09']
 RULE = ('cases: wavefronts of shape 1..5 x 1..5 (one full field, or 2-3 sub-fields with offsets, possibly overlapping), complex '
         'Gaussian data, oversample 1..4, full period K x L = (shape·os) with K ≥ rows, L ≥ cols drawn independently per axis; '
         'propagate_dft on the full period, on a smaller centred window (shape), and on a window nested in it (smaller shape / '
         'prop_shape / off-centre mask box), pupil→image and image→pupil, scalar and per-axis input sampling dx, untilted / common tilt (integer + sub-pixel, incl. the displaced full period) / per-field sub-pixel tilts, Wavefront.insert with weight ≠ 1; propagate_fft full and cropped, with and without scratch; normalize_power of complex '
         'arrays and of pupil amplitudes that are then imaged. distinct = (kind, field shapes/offsets, K, L, os, windows); '
-        'non-trivial = not (square, isotropic, single field) i.e. outside what the test-suite samples A ≈5 % sample (search tier: a leading block of 150 + padded FFT grids of 2048², 4096×1024, 1024×4100 checked by their totals) comes from an extremes stream: normalize_power targets within 1e-7 … 3e-5 relative or 1e-8 absolute of the present power at amplitude scales 1e-9 … 1e3, field amplitudes at 1e-9 / 1e9, wavelengths / distances / pixel sizes from 1e-9 to 1e6 with near-equal per-axis dx, 33–47 fields per wavefront; the quick tier runs one 4096×1024 FFT grid; all tolerances are relative to Σ|f_k|² resp. the target power. About 10 % of the cases are segmented pupils (3-D mask, 2-3 disjoint segments) on wider-than-tall and taller-than-wide arrays, amplitude normalised to p, imaged over one period by both propagators and judged against the plane\'s amplitude·mask power (oracle only).')
+        'non-trivial = not (square, isotropic, single field) i.e. outside what the test-suite samples A ≈5 % sample (search tier: a leading block of 150 + padded FFT grids of 2048², 4096×1024, 1024×4100 checked by their totals) comes from an extremes stream: normalize_power targets within 1e-7 … 3e-5 relative or 1e-8 absolute of the present power at amplitude scales 1e-9 … 1e3, field amplitudes at 1e-9 / 1e9, wavelengths / distances / pixel sizes from 1e-9 to 1e6 with near-equal per-axis dx, 33–47 fields per wavefront; the quick tier runs one 4096×1024 FFT grid; all tolerances are relative to Σ|f_k|² resp. the target power. About 10 % of the cases are segmented pupils (3-D mask, 2-3 disjoint segments) on wider-than-tall and taller-than-wide arrays, amplitude normalised to p, imaged over one period by both propagators and judged against the plane\'s amplitude·mask power (oracle only). One FFT case in six asks for a shape larger than the grid allows or passes a scratch smaller than the grid (both must raise ValueError, as the C09 model does). Overlapping fields with different sub-pixel tilts are generated and judged against the power of the coherently summed ramped inputs; one-sample windows are generated for multi-field wavefronts too.')
 TRUSTED = ['np.fft.fft2(norm="ortho") is the unitary DFT with origin at index 0; np.fft.fftshift / ifftshift follow their documented '
            'index maps (modelled in Model/Energy.lean, observed through the correspondence)',
            'np.dot / np.exp / np.abs / np.sum as written in the model; Wavefront.intensity merges coincident output fields (C06)']
 UNPROVEN = ['"images to total p" is proved for a monolithic pupil on the fresh wavefront through propagate_dft (pupil_images_to_amplitude_power); for the FFT '
             'path and for segmented masks it is the composition with propagate_fft_energy / C03 segmented = monolithic, not restated; evaluated by the oracle',
-            'energy for several fields carrying *different* tilts (interference between differently displaced transforms) has no theorem; '
-            'the generator gives overlapping fields a common tilt (theorem common_tilt_period_energy) and checks disjoint ones by the oracle',
             'Wavefront.insert(out, weight) = out + weight·intensity is evaluated by the oracle only',
             'propagate_fft_energy(_consistent) needs isotropic dx·du or a grid consistent with both samplings (C09: the FFT propagator reports one '
             'wavelength for two grids otherwise — known finding D9)']
-ASSUMPTIONS = ['commensurate sampling: 1/α is an integer number of samples per axis, at least the wavefront shape',
+ASSUMPTIONS = ['generator scope: sub-fields are never one element off the origin and pupil supports / segment boxes span more than one pixel — lentil treats a one-element Field as a broadcast constant, not a pixel (C06 documented rule; open known finding KF-C07-one-pixel-segment)',
+               'commensurate sampling: 1/α is an integer number of samples per axis, at least the wavefront shape',
                'sample sets lie inside one period; all fields lie on the wavefront canvas (Fits)']
 
 TOL = 1e-9
@@ -158,29 +156,18 @@ def _case(rng, kmax):
         else:
             w1 = {'how': how, 'shape': _sub(rng, w2)}
         c['w2'] = w2; c['w1'] = w1
-        # scope (C06): Wavefront.intensity cannot merge several output fields whose common bounding box is one pixel
-        # (field._merge raises inside NumPy), so one-sample windows are only generated for single-field wavefronts
-        sizes = [S[0] * S[1]] + ([(w1['box'][1] - w1['box'][0]) * (w1['box'][3] - w1['box'][2])] if how == 'mask'
-                                 else [w1['shape'][0] * w1['shape'][1] * os_ * os_])
-        if len(c['fields']) > 1 and (min(sizes) == 1 or s[0] * s[1] * os_ * os_ == 1): c['fields'] = c['fields'][:1]
         if c.get('tilt', {}).get('kind') == 'subpixel':
             c['tilt']['shifts'] = [[float(rng.uniform(-0.95, 0.95)), float(rng.uniform(-0.95, 0.95))] for _ in c['fields']]
-            # differently tilted fields are different plane waves: Σ|field|² is only the input power when their supports are
-            # disjoint (no interference term); overlapping fields get one common sub-pixel tilt
-            def ext(f): return (f['off'][0] - f['shape'][0] // 2, f['off'][0] - f['shape'][0] // 2 + f['shape'][0],
-                                f['off'][1] - f['shape'][1] // 2, f['off'][1] - f['shape'][1] // 2 + f['shape'][1])
-            es = [ext(f) for f in c['fields']]
-            if any(a[0] < b[1] and b[0] < a[1] and a[2] < b[3] and b[2] < a[3] for i, a in enumerate(es) for b in es[i + 1:]):
-                c['tilt']['shifts'] = [list(c['tilt']['shifts'][0]) for _ in c['fields']]
-        if 'tilt' in c and len(c['fields']) > 1 and min(S) * os_ < 2 * os_ + 8:
-            pass
-        if c.get('tilt', {}).get('kind') == 'common' and len(c['fields']) > 1:
-            # several fields sharing one tilt; only where a displaced window shrinks to a single sample is the wavefront reduced to
-            # one field (C06 scope, as above: Wavefront.intensity cannot merge fields on a one-pixel bounding box)
-            if any(b is not None and (b[1] - b[0]) * (b[3] - b[2]) == 1 for (_, _, b) in _boxes(c)): c['fields'] = c['fields'][:1]
     else:
         c['crop'] = _sub(rng, s) if rng.integers(0, 2) else None
         c['scratch'] = [int(rng.integers(0, 4)), int(rng.integers(0, 4))] if rng.integers(0, 3) == 0 else None
+        t = int(rng.integers(0, 12))
+        if t == 0:      # a requested shape larger than the grid allows must be refused (ValueError), not silently cropped
+            c['crop'] = [s[0] + int(rng.integers(1, 3)), s[1]] if rng.integers(0, 2) else [s[0], s[1] + int(rng.integers(1, 3))]; c['bad'] = 'shape'
+        elif t == 1:    # a scratch buffer smaller than the grid must be refused (ValueError)
+            c['scratch'] = [-int(rng.integers(1, 3)), int(rng.integers(0, 2))] if rng.integers(0, 2) else [0, -1]
+            if s[0] * os_ + c['scratch'][0] < 1 or s[1] * os_ + c['scratch'][1] < 1: c['scratch'] = None
+            else: c['bad'] = 'scratch'; c['crop'] = None
     return c
 
 def _big_fft(rng, grid):
@@ -253,7 +240,7 @@ def signature(c):
     if c['kind'] == 'seg': return base + f" seg={c['boxes']} p={c['power']:.6g}"
     fs = ' '.join(f"{f['shape']}@{f['off']}" for f in c['fields'])
     if c['kind'] == 'dft': return base + f" {fs} w2={c['w2']} w1={c['w1']} t={c.get('tilt')} w={c.get('weight')} p={c.get('ptype')}"
-    return base + f" {fs} crop={c['crop']} scratch={c['scratch']}"
+    return base + f" {fs} crop={c['crop']} scratch={c['scratch']} bad={c.get('bad')}"
 
 def nontrivial(c):
     if c['kind'] == 'seg': return True
@@ -278,6 +265,7 @@ def tags(c):
     if c['kind'] == 'fft':
         if c['crop']: t.append('fft:crop')
         if c['scratch']: t.append('fft:scratch')
+        if c.get('bad'): t.append('fft:refused-' + c['bad'])
     if c['kind'] == 'norm': t.append('norm:' + ('complex' if c['amp_im'] is not None else 'pupil-' + c['via']))
     if c.get('summary'): t.append('fft-grid>=2048^2')
     if c['kind'] != 'norm' and len(c['fields']) > 32: t.append('fields>32')
@@ -355,6 +343,13 @@ def impl(c):
         kw = {}
         if c['scratch'] is not None:
             kw['scratch'] = np.full((K + c['scratch'][0], L + c['scratch'][1]), 3.0 + 1.0j, dtype=complex)
+        if c.get('bad'):
+            try:
+                if c['bad'] == 'shape': lentil.propagate_fft(_wavefront(c), pixelscale=du, shape=tuple(c['crop']), oversample=os_, **kw)
+                else: lentil.propagate_fft(_wavefront(c), pixelscale=du, oversample=os_, **kw)
+                return {'refusal': {'exc': None}}
+            except Exception as e:
+                return {'refusal': {'exc': type(e).__name__, 'msg': str(e)[:120]}}
         full = lentil.propagate_fft(_wavefront(c), pixelscale=du, oversample=os_, **kw)
         if c.get('summary'): return {'full': _I(full, True)}
         res = {'full': _I(full)}
@@ -471,6 +466,7 @@ def requests(c, io):
         if c['scratch'] is not None:
             sh = [K + c['scratch'][0], L + c['scratch'][1]]
             base['scratch'] = {'shape': sh, 're': [fbits(3.0)] * (sh[0] * sh[1]), 'im': [fbits(1.0)] * (sh[0] * sh[1])}
+        if c.get('bad'): return [{**base, 'shape': list(c['crop']) if c['bad'] == 'shape' else None}]
         reqs = [{**base, 'shape': None}]
         if c['crop']: reqs.append({**base, 'shape': list(c['crop'])})
         return reqs
@@ -482,9 +478,17 @@ def _power(c):
     """Σ|field|² of the input wavefront: coherent sum of the embeddings (independent of lentil)"""
     m, n = c['wshape']
     cv = np.zeros((m, n), dtype=complex)
-    for f in c['fields']:
+    K, L = c['full'][0] * c['os'], c['full'][1] * c['os']
+    shifts = _shifts(c) if (c['kind'] == 'dft' and c.get('tilt')) else [[0.0, 0.0]] * len(c['fields'])
+    for f, (sr, sc) in zip(c['fields'], shifts):
         a, b = f['shape']; r0 = f['off'][0] - a // 2 + m // 2; c0 = f['off'][1] - b // 2 + n // 2
-        cv[r0:r0 + a, c0:c0 + b] += _fdata(f)
+        d = _fdata(f)
+        if (sr, sc) != (0.0, 0.0):
+            # a tilted field is the field times its phase ramp exp(2πi(α_r X s_r + α_c Y s_c)), X = row − ⌊a/2⌋ + offset (α = 1/K, 1/L):
+            # differently tilted, overlapping fields interfere — this is the input power the image total must equal
+            X = (np.arange(a) - a // 2 + f['off'][0])[:, None]; Y = (np.arange(b) - b // 2 + f['off'][1])[None, :]
+            d = d * np.exp(2j * np.pi * (X * sr / K + Y * sc / L))
+        cv[r0:r0 + a, c0:c0 + b] += d
     return float(np.sum(np.abs(cv) ** 2))
 
 def _scale(c):
@@ -497,6 +501,10 @@ def _marr(d): return np.array([bitsf(x) for x in d['v']], dtype=float).reshape(d
 
 def compare(c, io, mo):
     if c.get('summary') or c['kind'] == 'seg': return None
+    if c.get('bad'):
+        m = mo[0]
+        want = None if m.get('ok') else m.get('err')
+        return None if io['refusal']['exc'] == want else f"propagate_fft refusal: implementation {io['refusal']['exc']}, model {want}"
     for m in mo:
         if not m.get('ok'): return f"model refused: {m.get('err')}"
     if c['kind'] == 'dft':
@@ -553,6 +561,11 @@ def oracle(c, io):
             I = _arr(io['image'])
             if I.size and I.min() < 0: return f'negative intensity {I.min()}'
             if not abs(I.sum() - p) <= TOL * p: return f"normalised pupil (power {p}) images to total {I.sum()} via {c['via']}"
+        return None
+    if c.get('bad'):
+        if io['refusal']['exc'] != 'ValueError':
+            return (f"propagate_fft accepted a {'shape ' + str(c['crop']) + ' larger than the grid allows' if c['bad'] == 'shape' else 'scratch smaller than the grid'}"
+                    f" (raised {io['refusal']['exc']})")
         return None
     P = _power(c); tol = TOL * _scale(c)
     if c.get('summary'):
